@@ -107,7 +107,7 @@ def run_shard(sh):
             alpha = ['OPEN', 'OPEN_h9', 'KA', 'KA', 'UPD1', 'NOTI_CEASE'] + S.fuzz_alphabet_typed(rng, sh['fuzz'])
         if sh.get('opens'):
             # peer OPENs from a grammar: capability sets, packagings, hold times, AS forms, one problem at most
-            alpha = ['KA', 'KA', 'KA', 'UPD1', 'NOTI_CEASE', 'RR'] + S.open_alphabet(rng, sh['opens'])
+            alpha = ['KA', 'KA', 'KA', 'UPD1', 'NOTI_CEASE', 'RR'] + S.open_alphabet(rng, sh['opens']) + S.noti_alphabet(rng, sh['opens'] // 4)
         for i in range(sh['n']):
             if budget.expired():
                 break
